@@ -361,7 +361,7 @@ pub fn edits(args: &Args) {
     let mut per: HashMap<String, u64> = HashMap::new();
     for run in 0..runs {
         let ty = TYPES[(run % 7) as usize];
-        w.emit(&json!({"k":"reset","run":run,"ty":ty}));
+        w.emit(&json!({"k":"reset","run":run,"ty":ty,"cls":"edits"}));
         match ty {
             "FileName" => edit_run::<255, FileName>(&mut w, &mut per, &mut rng, ops),
             "Path" => edit_run::<255, Path>(&mut w, &mut per, &mut rng, ops),
